@@ -16,7 +16,7 @@ struct MapWorld : World {
         const std::vector<uint32_t> &cand = reg.uni_ops[u];
         p.hdr[H_UNI] = u; p.hdr[H_STORAGE] = r.below(3) == 0 ? 1 : 0;
         p.hdr[H_SIDE] = r.below(4) == 0 ? MIDDLE : (r.below(2) ? BACK : FRONT);
-        p.hdr[H_MISALIGN] = r.below(3) == 0 ? 0 : r.below(64);
+        p.hdr[H_MISALIGN] = r.below(3) == 0 ? 0 : (r.below(64) | (r.below(4) == 0 ? 0x40 : 0));
         p.hdr[H_POISON] = r.below(NPOISON); p.hdr[H_DATA] = r.below(100000); p.hdr[H_FAILALLOC] = r.below(8) == 0;
         uint32_t nsteps = 1 + r.below(12);
         int fixed_operator = r.below(3) == 0 ? (int)r.below(5) : -1;
@@ -38,7 +38,7 @@ struct MapWorld : World {
         if (cnt) {
             const char *sd[3] = {"middle", "back-flush", "front-flush"};
             cnt->bump(std::string("fault/buffer-placement-") + sd[p.hdr[H_SIDE] % 3]);
-            if (p.hdr[H_STORAGE] % 2 == 0) { char b[40]; snprintf(b, sizeof b, "fault/misalign-%02u", p.hdr[H_MISALIGN] % 64 / 4 * 4); cnt->bump(b); }
+            if (p.hdr[H_STORAGE] % 2 == 0) { char b[40]; snprintf(b, sizeof b, "fault/misalign-%02u", p.hdr[H_MISALIGN] % 64 / 4 * 4); cnt->bump(b); if (p.hdr[H_MISALIGN] & 0x40) cnt->bump("fault/byte-granular-misalignment (address not a multiple of sizeof(T))"); }
             cnt->bump(p.hdr[H_STORAGE] % 2 ? "fault/storage-owning-tensor-with-reshape-maps" : "fault/storage-raw-buffer-with-maps");
             { char b[32]; snprintf(b, sizeof b, "fault/poison-%u", p.hdr[H_POISON] % NPOISON); cnt->bump(b); }
             if (p.hdr[H_FAILALLOC] & 1) cnt->bump("fault/alloc-failure-armed-runs");
